@@ -173,7 +173,8 @@ Theorem C08_assignment_stores_value : forall lx ck (c c' : config F) vs name tok
   exists vs2 vs2',
     execute_ast (basic_execute lx ck) c vs (AAssignment name toks e) = Ok (IOk v, vs2) /\
     execute_ast (basic_execute lx ck) c' vs (AAssignment name toks e) = Ok (IOk v, vs2') /\
-    vs2 = vs2' /\ option_map (@v_data F) (assoc name vs2) = Some v.
+    vs2 = vs2' /\
+    option_map (@v_data F) (assoc (match assoc name vs1 with Some _ => name | None => var_key vs1 toks end) vs2) = Some v.
 Proof. exact assignment_stores_value. Qed.
 
 (* several lines, each seeing the variables left by the previous ones *)
